@@ -511,7 +511,7 @@ Print Assumptions c17_src_declines.
    Round 5 — std::path at the level of components (C17/PathModel.v: Path::components on unix, Path::parent = the path
    without its final component; compared with the real std::path on every produced path by the correspondence run).
    What the file-system sinks with a `.parent()` (create_dir_all) and the file creation receive. *)
-From RM Require Import C17.PathModel C17.PathProofs C17.IdModel C17.IdProofs C17.UrlFullSrc.
+From RM Require Import C17.PathModel C17.PathProofs C17.IdModel C17.IdProofs C17.UrlFullSrc C17.ServerUrlProofs.
 
 (* joining a safe relative path onto a non-empty root appends its components, none of them `..` *)
 Theorem c17_path_join_components : forall root rel, root <> [] -> safe_rel rel ->
@@ -620,6 +620,34 @@ Example c17_nonvacuous_url_full :
   g_request_target s_https [47;114;47;105] [107;46;100;108;108;47;53;97;47;107;46;100;108;108]
     = JSame [47;114;47;107;46;100;108;108;47;53;97;47;107;46;100;108;108].                    (* k.dll/5a/k.dll on https /r/i -> /r/k.dll/5a/k.dll *)
 Proof. vm_compute. reflexivity. Qed.
+
+(* Round 5, second pass — the server URL as CONFIGURED is the root.  HttpSymbolSupplier::new appends the missing '/'
+   (pinned from the source: Gen/C17Flow.v g_server_url_norm, obligation below), so the parsed base path ends with '/',
+   base_dir is the identity on it and every safe lookup path is requested from the configured scheme and host with a
+   path that EXTENDS the configured path — for every URL tail without query / fragment (any dot segments, spaces,
+   backslashes, TABs in it), every special scheme, every byte string p that is a safe relative path *)
+Theorem c17_server_url_root : forall base_scheme suffix p, no_qf suffix -> bytes p -> safe_rel p ->
+  exists t, request_target base_scheme (server_base_path suffix) p = JSame (server_base_path suffix ++ t).
+Proof. exact server_url_root. Qed.
+Print Assumptions c17_server_url_root.
+
+Theorem c17_src_server_url_normalised : g_server_url_norm = UnAppendSlash.
+Proof. exact server_url_norm_known. Qed.
+Print Assumptions c17_src_server_url_normalised.
+
+(* refutation of the variant without the appended '/': `http://host/root` taken as it is has the base directory "/",
+   the request for `x` goes to /x — outside the configured /root/ (what mutation N9 does) *)
+Theorem c17_server_url_unnormalised_refuted :
+  server_base_path [114;111;111;116] = [47;114;111;111;116;47] /\
+  server_base_path_of [114;111;111;116] = [47;114;111;111;116] /\
+  request_target s_http (server_base_path_of [114;111;111;116]) [120] = JSame [47;120] /\
+  request_target s_http (server_base_path [114;111;111;116]) [120] = JSame [47;114;111;111;116;47;120].
+Proof. exact server_url_unnormalised. Qed.
+Print Assumptions c17_server_url_unnormalised_refuted.
+
+Example c17_nonvacuous_server_url :
+  no_qf [97;47;46;46;47;98;32;92;99] /\ server_base_path [97;47;46;46;47;98;32;92;99] = [47;98;37;50;48;47;99;47].   (* "a/../b \c" -> /b%20/c/ *)
+Proof. split; [repeat constructor; discriminate | vm_compute; reflexivity]. Qed.
 
 (* Windows rules at component level (model-only: std's Windows path code cannot be executed on this machine): pushing a
    safe relative path onto a root that is not a bare drive `X:` keeps the root's components in front and adds no `..` *)
